@@ -244,7 +244,7 @@ def build_locale():
         return None
 
 
-CLI_WRAPS = ["fopen", "open", "open64", "fdopen", "read", "close", "lseek", "posix_fadvise", "abort", "__assert_fail", "exit", "fileno", "fstat", "isatty", "setvbuf", "setlocale", "strerror"]
+CLI_WRAPS = ["fopen", "open", "open64", "fdopen", "read", "close", "lseek", "posix_fadvise", "abort", "__assert_fail", "exit", "fileno", "fstat", "stat", "lstat", "stat64", "lstat64", "fstatat", "fstatat64", "access", "isatty", "setvbuf", "setlocale", "strerror"]
 
 
 def build_cli(ndebug=False):
@@ -296,7 +296,8 @@ SCHED_WRAPS = ["malloc", "free", "calloc", "realloc", "strdup", "strndup", "strl
                "sprintf", "snprintf", "vsprintf", "vsnprintf", "strcat", "strncat", "stpcpy", "strtok_r", "strsep",
                "idn2_to_ascii_8z", "strtok", "strerror", "rand", "srand", "setlocale", "getenv", "setenv", "unsetenv", "putenv", "clearenv", "abort", "__assert_fail", "atexit", "on_exit", "pthread_self", "pthread_getattr_np", "hcreate", "hsearch", "hdestroy", "localtime", "gmtime", "asctime", "ctime", "random", "srandom", "drand48", "lrand48",
                "pthread_mutex_lock", "pthread_mutex_trylock", "pthread_mutex_unlock", "pthread_mutex_init", "pthread_mutex_destroy",
-               "pthread_rwlock_rdlock", "pthread_rwlock_wrlock", "pthread_rwlock_unlock", "pthread_once", "sched_yield"]
+               "pthread_rwlock_rdlock", "pthread_rwlock_wrlock", "pthread_rwlock_unlock", "pthread_once", "sched_yield",
+               "sem_init", "sem_destroy", "sem_wait", "sem_trywait", "sem_timedwait", "sem_post"]
 
 # externals of the library objects that the C14 runtime models (anything else is reported as unmodelled)
 SCHED_MODELLED = set(SCHED_WRAPS) | {"__ctype_b_loc", "__ctype_tolower_loc", "__ctype_toupper_loc", "idn2_strerror", "__errno_location",
